@@ -841,6 +841,9 @@ func (g *c03Gen) parseSection(r *VRand, n int) {
 		k := 1 + r.Intn(3)
 		for i := 0; i < k; i++ {
 			lin := cuts[r.Intn(len(cuts))]
+			if i == 0 && r.Chance(0.6) {
+				lin = len(fr)
+			}
 			pull := 1
 			if r.Chance(0.15) {
 				pull = 0
@@ -1044,9 +1047,9 @@ func (g *c03Gen) witnesses() {
 func TestVerifC03Gen(t *testing.T) {
 	stats := NewVStats()
 	seed := VSeed()
-	nScen, steps, nParse := 260, 45, 2500
+	nScen, steps, nParse := 400, 50, 4000
 	if VThorough() {
-		nScen, steps, nParse = 2600, 70, 30000
+		nScen, steps, nParse = 3000, 70, 40000
 	}
 	nScen = VEnvInt("VERIF_C03_SCEN", nScen)
 
